@@ -26,6 +26,7 @@ import Driver.HandlerStatus
 import Driver.EventSerial
 import Driver.StreamGate
 import Driver.DbosTimer
+import Driver.SerialCtx
 
 def main (args : List String) : IO UInt32 := do
   let stdin ← IO.getStdin
@@ -57,4 +58,5 @@ def main (args : List String) : IO UInt32 := do
   | ["eventserial"] => Drv.loop stdin Drv.EventSerial.step {}; return 0
   | ["streamgate"] => Drv.loop stdin Drv.StreamGate.step {}; return 0
   | ["dbostimer"] => Drv.loop stdin Drv.DbosTimer.step []; return 0
+  | ["serialctx"] => Drv.loop stdin Drv.SerialCtx.step {}; return 0
   | _ => IO.eprintln "usage: wfdriver <model>"; return 2
